@@ -77,6 +77,22 @@ Theorem C06_astar_meets_path_contract :
 Proof. exact as_path_meets_contract. Qed.
 Print Assumptions C06_astar_meets_path_contract.
 
+(* ---- the path-oracle hypothesis is discharged by the A* model itself: on a connected plaquette graph (a walk exists
+   between any two plaquettes), with adjacency lists that agree with edges.adjacent_plaquettes and a metric-like cost
+   (consistent towards every goal), the model of  path_between_plaquettes(l, a, b, maxits = l.n_edges)  (early stopping,
+   budget = number of edges) returns a path for every pair of distinct plaquettes and that path meets the contract:
+   no PathFindingError can reach the solver (uses C11_astar_budget) *)
+Theorem C06_astar_oracle_contract :
+  forall (adj : nat -> list (nat * nat)) (h : nat -> nat -> Z) (ep : list (option nat * option nat)) (nF : nat),
+    (forall x y e, In (y, e) (adj x) -> (0 <= h x y)%Z /\ (x <> y -> (0 < h x y)%Z)) ->
+    (forall g x y e, In (y, e) (adj x) -> (h x g <= h x y + h y g)%Z) ->
+    (forall x g, (0 <= h x g)%Z) ->
+    (forall x y e, In (y, e) (adj x) -> as_joined ep e y x = true) ->
+    (forall a b, (a < nF)%nat -> (b < nF)%nat -> exists ws es, as_chain adj ws es /\ hd_error ws = Some b /\ last ws b = a) ->
+    forall a b, (a < nF)%nat -> (b < nF)%nat -> a <> b -> fs_path_ok ep a b (as_oracle adj h (length ep) a b) = true.
+Proof. exact as_oracle_contract. Qed.
+Print Assumptions C06_astar_oracle_contract.
+
 (* ---- clause "bonds realising its ground-state ansatz": the table, over the ground_state_ansatz GENERATED from
    example_graphs.py: sign_real[n mod 4] * ground_state_ansatz(n) = -1 for every n >= 3, i.e. the ansatz asks for
    prod(u d) = -1 around every plaquette whatever its number of sides *)
